@@ -179,7 +179,7 @@ def check(run: Run) -> None:
             # the None branch must end in return None / raise
             err_ok = False
             for n in walk_no_nested(caller.node):
-                if isinstance(n, ast.If) and var in names_loaded(n.test):
+                if isinstance(n, ast.If) and (var in names_loaded(n.test) or any(isinstance(x, ast.NamedExpr) and x.target.id == var for x in ast.walk(n.test))):
                     last = n.body[-1]
                     if isinstance(last, ast.Raise) or (isinstance(last, ast.Return) and (last.value is None or (isinstance(last.value, ast.Constant) and last.value.value in (None, 1)))):
                         err_ok = True
